@@ -32,7 +32,8 @@ fn yaml_json_safe(v: &serde_yaml::Value) -> Result<(), &'static str> {
         }
         Y::Sequence(s) => s.iter().try_for_each(yaml_json_safe),
         Y::Mapping(m) => m.iter().try_for_each(|(k, v)| {
-            if !k.is_string() {
+            // (`is_string` looks through YAML tags: `! "note": 0` has a tagged key that JSON cannot hold either)
+            if !matches!(k, Y::String(_)) {
                 return Err("non-string metadata key (JSON cannot hold it)");
             }
             yaml_json_safe(v)
